@@ -79,12 +79,11 @@ theorem filter_others_nil (tag : String) (xs : List Xml) (hxs : ∀ c ∈ xs, c.
     xs.filter (fun c => !(c.tag == tag)) = [] := by
   rw [List.filter_eq_nil_iff]; intro c hc; simp [hxs c hc]
 
-theorem insertBefore_shape (tag : String) (cs : List Xml) (id : Key) (xs : List Xml)
-    (hw : WfKids tag cs = true) (hxs : ∀ c ∈ xs, c.tag = tag) :
+theorem insertBefore_shape (tag : String) (cs : List Xml) (id : Key) (xs : List Xml) (hxs : ∀ c ∈ xs, c.tag = tag) :
     (insertBefore tag none cs id xs).err.isSome = true ∨
     (KeepsOthers tag cs (insertBefore tag none cs id xs).kids ∧
       ∃ p q, (insertBefore tag none cs id xs).kids = p ++ xs ++ q) := by
-  rw [insertBefore_ok tag cs id xs hw]
+  rw [insertBefore_ok tag cs id xs]
   have hnil := filter_others_nil tag xs hxs
   cases id with
   | none =>
@@ -103,13 +102,12 @@ theorem insertBefore_shape (tag : String) (cs : List Xml) (id : Key) (xs : List 
       refine ⟨?_, a, x :: b, rfl⟩
       simp [KeepsOthers, List.filter_append, hnil]
 
-theorem replace_shape (tag : String) (items : List Xml) (id : Key) (xs : List Xml)
-    (hw : WfKids tag items = true) (hxs : ∀ c ∈ xs, c.tag = tag) (o : Out)
+theorem replace_shape (tag : String) (items : List Xml) (id : Key) (xs : List Xml) (hxs : ∀ c ∈ xs, c.tag = tag) (o : Out)
     (ho : o = match findRequired tag none items id with
       | .error e => failWith items [] e
       | .ok i => ⟨replaceAt items i xs, [], none⟩) :
     o.err.isSome = true ∨ (KeepsOthers tag items o.kids ∧ ∃ p q, o.kids = p ++ xs ++ q) := by
-  rw [findRequired_ok tag none items id hw] at ho
+  rw [findRequired_ok tag none items id] at ho
   cases hl : locate tag items id with
   | none => left; rw [ho, hl]; rfl
   | some i =>
@@ -148,11 +146,11 @@ theorem c04_StoryAppend (rc base : Xml) : C04Out .StoryAppend rc base := by
   rw [cKids_story _ _ _ rfl]
   simp [keptOf, Kind.dedups, namedOf]
 
-theorem c04_StoryInsert (rc base : Xml) (hws : WfKids "story" rc.kids = true)
+theorem c04_StoryInsert (rc base : Xml)
     (htim : storiesExc rc = none) : C04Out .StoryInsert rc base := by
   unfold C04Out
   simp only [mergeRc]
-  rw [findRequired_ok "story" none rc.kids _ hws]
+  rw [findRequired_ok "story" none rc.kids _]
   cases hl : locate "story" rc.kids (elemId (some base) "storyID") with
   | none => left; rfl
   | some i =>
@@ -170,11 +168,11 @@ theorem c04_StoryInsert (rc base : Xml) (hws : WfKids "story" rc.kids = true)
     rw [cKids_story _ _ _ rfl]
     rfl
 
-theorem c04_EAStoryInsert (rc base : Xml) (hws : WfKids "story" rc.kids = true)
+theorem c04_EAStoryInsert (rc base : Xml)
     (htim : storiesExc rc = none) : C04Out .EAStoryInsert rc base := by
   unfold C04Out
   simp only [mergeRc, elemsOf_eq]
-  rw [findTarget_ok "story" none rc.kids _ hws]
+  rw [findTarget_ok "story" none rc.kids _]
   cases hid : elemId (base.find "element_target") "storyID" with
   | none =>
     simp only [htim, Option.getD_none, roStoryIds_eq, insertDedup_closed_end]
@@ -204,11 +202,11 @@ theorem c04_EAStoryInsert (rc base : Xml) (hws : WfKids "story" rc.kids = true)
       rw [cKids_story _ _ _ rfl]
       rfl
 
-theorem c04_StoryReplace (rc base : Xml) (hws : WfKids "story" rc.kids = true) :
+theorem c04_StoryReplace (rc base : Xml) :
     C04Out .StoryReplace rc base := by
   unfold C04Out
   simp only [mergeRc]
-  rw [findRequired_ok "story" none rc.kids _ hws]
+  rw [findRequired_ok "story" none rc.kids _]
   cases hl : locate "story" rc.kids (elemId (some base) "storyID") with
   | none => left; rfl
   | some i =>
@@ -224,11 +222,11 @@ theorem c04_StoryReplace (rc base : Xml) (hws : WfKids "story" rc.kids = true) :
       rw [cKids_story _ _ _ rfl, hcs, replaceAt_split]
       rfl
 
-theorem c04_EAStoryReplace (rc base : Xml) (hws : WfKids "story" rc.kids = true) :
+theorem c04_EAStoryReplace (rc base : Xml) :
     C04Out .EAStoryReplace rc base := by
   unfold C04Out
   simp only [mergeRc, elemsOf_eq]
-  rw [findRequired_ok "story" none rc.kids _ hws]
+  rw [findRequired_ok "story" none rc.kids _]
   cases hl : locate "story" rc.kids (elemId (base.find "element_target") "storyID") with
   | none => left; rfl
   | some i =>
@@ -244,13 +242,13 @@ theorem c04_EAStoryReplace (rc base : Xml) (hws : WfKids "story" rc.kids = true)
 
 /-- the common item-level argument -/
 theorem c04_item (k : Kind) (nm : Named) (cs : List Xml) (sid : Key) (f : List Xml → Out) (xs : List Xml)
-    (hk : k.isStoryLevel = false) (hst : nm.story = sid) (hws : WfKids "story" cs = true)
+    (hk : k.isStoryLevel = false) (hst : nm.story = sid)
     (hf : ∀ x ∈ cs, x.tag = "story" →
       (f x.kids).err.isSome = true ∨
       (KeepsOthers "item" x.kids (f x.kids).kids ∧ ∃ p q, (f x.kids).kids = p ++ xs ++ q)) :
     (inStory none cs sid f).err.isSome = true ∨
     ∃ ids p q, cIds k nm cs = some ids ∧ cKids k nm (inStory none cs sid f).kids = some (p ++ xs ++ q) := by
-  rcases inStory_cases cs sid f hws with h | ⟨key, a, x, b, hsid, hcs, hxm, hxt, hx, ha, ho⟩
+  rcases inStory_cases cs sid f with h | ⟨key, a, x, b, hsid, hcs, hxm, hxt, hx, ha, ho⟩
   · left; rw [h]; rfl
   · rw [ho]
     rcases hf x hxm hxt with h | ⟨h1, h2⟩
@@ -259,42 +257,39 @@ theorem c04_item (k : Kind) (nm : Named) (cs : List Xml) (sid : Key) (f : List X
       rw [hcs]
       exact item_pay k nm a b x key _ xs hk (hst.trans hsid) hx ha h1 h2
 
-theorem c04_ItemInsert (rc base : Xml) (hws : WfKids "story" rc.kids = true)
-    (hwi : ∀ s ∈ rc.kids, s.tag = "story" → WfKids "item" s.kids = true) :
+theorem c04_ItemInsert (rc base : Xml) :
     C04Out .ItemInsert rc base := by
   unfold C04Out
   simp only [mergeRc]
   rcases c04_item .ItemInsert (namedOf .ItemInsert base) rc.kids _
     (fun items => insertBefore "item" none items (elemId (some base) "itemID") (base.findall "item"))
-    (base.findall "item") rfl rfl hws
+    (base.findall "item") rfl rfl
     (fun x hxm hxt => insertBefore_shape "item" x.kids (elemId (some base) "itemID") (base.findall "item")
-      (hwi x hxm hxt) (findall_tag _ _)) with h | ⟨ids, p, q, h1, h2⟩
+      (findall_tag _ _)) with h | ⟨ids, p, q, h1, h2⟩
   · left; exact h
   · right
     unfold GrpPay
     simp only [Kind.group]
     exact ⟨ids, p, q, h1, h2⟩
 
-theorem c04_EAItemInsert (rc base : Xml) (hws : WfKids "story" rc.kids = true)
-    (hwi : ∀ s ∈ rc.kids, s.tag = "story" → WfKids "item" s.kids = true) :
+theorem c04_EAItemInsert (rc base : Xml) :
     C04Out .EAItemInsert rc base := by
   unfold C04Out
   simp only [mergeRc, elemsOf_eq]
   rcases c04_item .EAItemInsert (namedOf .EAItemInsert base) rc.kids _
     (fun items => insertBefore "item" none items (elemId (base.find "element_target") "itemID")
       (elemsOf (base.find "element_source") "item"))
-    (elemsOf (base.find "element_source") "item") rfl rfl hws
+    (elemsOf (base.find "element_source") "item") rfl rfl
     (fun x hxm hxt => insertBefore_shape "item" x.kids (elemId (base.find "element_target") "itemID")
       (elemsOf (base.find "element_source") "item")
-      (hwi x hxm hxt) (elemsOf_tag _ _)) with h | ⟨ids, p, q, h1, h2⟩
+      (elemsOf_tag _ _)) with h | ⟨ids, p, q, h1, h2⟩
   · left; exact h
   · right
     unfold GrpPay
     simp only [Kind.group]
     exact ⟨ids, p, q, h1, h2⟩
 
-theorem c04_ItemReplace (rc base : Xml) (hws : WfKids "story" rc.kids = true)
-    (hwi : ∀ s ∈ rc.kids, s.tag = "story" → WfKids "item" s.kids = true) :
+theorem c04_ItemReplace (rc base : Xml) :
     C04Out .ItemReplace rc base := by
   unfold C04Out
   simp only [mergeRc]
@@ -302,17 +297,16 @@ theorem c04_ItemReplace (rc base : Xml) (hws : WfKids "story" rc.kids = true)
     (fun items => match findRequired "item" none items (elemId (some base) "itemID") with
       | .error e => failWith items [] e
       | .ok i => ⟨replaceAt items i (base.findall "item"), [], none⟩)
-    (base.findall "item") rfl rfl hws
+    (base.findall "item") rfl rfl
     (fun x hxm hxt => replace_shape "item" x.kids (elemId (some base) "itemID") (base.findall "item")
-      (hwi x hxm hxt) (findall_tag _ _) _ rfl) with h | ⟨ids, p, q, h1, h2⟩
+      (findall_tag _ _) _ rfl) with h | ⟨ids, p, q, h1, h2⟩
   · left; exact h
   · right
     unfold GrpPay
     simp only [Kind.group]
     exact ⟨ids, p, q, h1, h2⟩
 
-theorem c04_EAItemReplace (rc base : Xml) (hws : WfKids "story" rc.kids = true)
-    (hwi : ∀ s ∈ rc.kids, s.tag = "story" → WfKids "item" s.kids = true) :
+theorem c04_EAItemReplace (rc base : Xml) :
     C04Out .EAItemReplace rc base := by
   unfold C04Out
   simp only [mergeRc, elemsOf_eq]
@@ -320,10 +314,10 @@ theorem c04_EAItemReplace (rc base : Xml) (hws : WfKids "story" rc.kids = true)
     (fun items => match findRequired "item" none items (elemId (base.find "element_target") "itemID") with
       | .error e => failWith items [] e
       | .ok i => ⟨replaceAt items i (elemsOf (base.find "element_source") "item"), [], none⟩)
-    (elemsOf (base.find "element_source") "item") rfl rfl hws
+    (elemsOf (base.find "element_source") "item") rfl rfl
     (fun x hxm hxt => replace_shape "item" x.kids (elemId (base.find "element_target") "itemID")
       (elemsOf (base.find "element_source") "item")
-      (hwi x hxm hxt) (elemsOf_tag _ _) _ rfl) with h | ⟨ids, p, q, h1, h2⟩
+      (elemsOf_tag _ _) _ rfl) with h | ⟨ids, p, q, h1, h2⟩
   · left; exact h
   · right
     unfold GrpPay
@@ -469,7 +463,7 @@ theorem payload_any (i : MergeInput) (h : DomC04 i = true) :
   unfold DomC04 at h
   simp only [Bool.and_eq_true] at h
   obtain ⟨⟨hwf, htim⟩, hsh⟩ := h
-  obtain ⟨rc, hrc, hws, hwi⟩ := wfRO_unpack_w hwf
+  obtain ⟨rc, hrc⟩ := wfRO_unpack_w hwf
   have htim' : storiesExc rc = none := by
     simpa [TimingOk, hrc] using htim
   obtain ⟨base, hb⟩ : ∃ base, m.find k.baseTag = some base := by
@@ -488,14 +482,14 @@ theorem payload_any (i : MergeInput) (h : DomC04 i = true) :
         show C04Out k rc base
         cases k <;> first | exact absurd hg (by decide) | skip
         case StoryAppend => exact c04_StoryAppend rc base
-        case StoryInsert => exact c04_StoryInsert rc base hws htim'
-        case EAStoryInsert => exact c04_EAStoryInsert rc base hws htim'
-        case StoryReplace => exact c04_StoryReplace rc base hws
-        case EAStoryReplace => exact c04_EAStoryReplace rc base hws
-        case ItemInsert => exact c04_ItemInsert rc base hws hwi
-        case EAItemInsert => exact c04_EAItemInsert rc base hws hwi
-        case ItemReplace => exact c04_ItemReplace rc base hws hwi
-        case EAItemReplace => exact c04_EAItemReplace rc base hws hwi
+        case StoryInsert => exact c04_StoryInsert rc base htim'
+        case EAStoryInsert => exact c04_EAStoryInsert rc base htim'
+        case StoryReplace => exact c04_StoryReplace rc base
+        case EAStoryReplace => exact c04_EAStoryReplace rc base
+        case ItemInsert => exact c04_ItemInsert rc base
+        case EAItemInsert => exact c04_EAItemInsert rc base
+        case ItemReplace => exact c04_ItemReplace rc base
+        case EAItemReplace => exact c04_EAItemReplace rc base
         all_goals (right; unfold GrpPay; trivial)
       · cases k <;> first | exact absurd rfl hg | exact absurd hk (by decide) | skip
         · -- StorySend
